@@ -18,7 +18,7 @@ RULE = (
     "potentials; non-trivial = mesh built (not refused) with >= 20 sites and every identity "
     "evaluated; distinct = distinct mesh spec"
 )
-REQUIRED_COUNTERS = ["lap_eq_div_grad", "div_sums_to_zero", "boundary_flux_integral", "symmetric_nsd", "nullspace_constants", "covariant_hermitian", "gradient_exact_linear", "ref_entrywise"]
+REQUIRED_COUNTERS = ["lap_eq_div_grad", "div_sums_to_zero", "boundary_flux_integral", "symmetric_nsd", "nullspace_constants", "covariant_hermitian", "gradient_exact_linear", "ref_entrywise", "live_covariant_hermitian", "smoothed_mesh_checks"]
 CASE_TIMEOUT = {"quick": 300, "thorough": 900}
 ASSUMPTIONS = [
     "numpy/scipy dense eigensolvers are correct",
@@ -168,6 +168,64 @@ def run_case(spec):
     Bref = fv.boundary_flux(n, em.edges, em.edge_lengths, a, bidx)
     if note("ref_entrywise", fv.max_abs_diff(B, Bref), 1e-12 * abs(Bref).max()):
         viol("boundary_flux_ne_reference", {"max_abs_diff": fv.max_abs_diff(B, Bref)})
+
+    # 9. the covariant Laplacian IN USE (live MeshOperators, refreshed in place) stays Hermitian
+    from tdgl.finite_volume.operators import MeshOperators
+    from tdgl.solver.options import SparseSolver
+
+    try:
+        live = MeshOperators(mesh, SparseSolver.SUPERLU, fixed_sites=None)
+        live.build_operators()
+        for amp in (0.0, 0.5, 5.0, 0.0, 2.0):
+            A = rng.normal(size=(m, 2)) * amp
+            live.set_link_exponents(A)
+            ML = (sp.diags(a) @ sp.csr_matrix(live.psi_laplacian)).toarray()
+            h = float(np.abs(ML - ML.conj().T).max())
+            if note("live_covariant_hermitian", h, 1e-12 * float(np.abs(ML).max())):
+                viol("live_covariant_laplacian_not_hermitian", {"asym": h, "amp": amp})
+            Gl = sp.csr_matrix(live.psi_gradient)
+            Gr = fv.gradient_fast(n, em.edges, em.edge_lengths, em.directions, A)
+            if note("live_covariant_hermitian", fv.max_abs_diff(Gl, Gr), 1e-11 * abs(Gr).max()):
+                viol("live_covariant_gradient_ne_reference", {"amp": amp})
+    except RuntimeError as exc:
+        if "exactly singular" not in str(exc):
+            raise
+        C["live_operator_refused_singular"] = 1
+
+    # 10. smoothing returns new meshes that obey the identities and leaves the source mesh untouched
+    if mesh.voronoi_polygons is not None and spec["mesh"]["kind"] != "explicit":
+        sites_before = np.array(mesh.sites, copy=True)
+        for it in (1, 2, 3):
+            try:
+                sm = mesh.smooth(it)
+            except ValueError as exc:
+                if "Malformed Voronoi" in str(exc) or "NaN" in str(exc):
+                    C["smooth_refused"] = C.get("smooth_refused", 0) + 1
+                    continue
+                raise
+            C["smoothed_mesh_checks"] = C.get("smoothed_mesh_checks", 0) + 1
+            for msh, nm in ((sm, f"smoothed{it}"), (mesh, f"source_after_smooth{it}")):
+                st = np.asarray(msh.sites)
+                e_ = msh.edge_mesh.edges
+                rij_ = st[e_[:, 1]] - st[e_[:, 0]]
+                lij_ = np.hypot(rij_[:, 0], rij_[:, 1])
+                Gm = ops.build_gradient(msh)
+                gvec = rng.normal(size=2)
+                got = Gm @ (st @ gvec + 0.3)
+                want = (rij_ @ gvec) / lij_
+                err = float(np.abs(got - want).max())
+                mag = float(np.abs(st @ gvec).max() / lij_.min() + np.abs(want).max())
+                if note("gradient_exact_linear", err, 1e-10 * mag):
+                    viol("gradient_not_exact_on_linear", {"mesh": nm, "err": err, "mag": mag})
+                Lm, _ = ops.build_laplacian(msh)
+                d_ = fv.max_abs_diff(sp.csr_matrix(Lm), ops.build_divergence(msh) @ Gm)
+                if note("lap_eq_div_grad", d_, 1e-10 * abs(sp.csr_matrix(Lm)).max()):
+                    viol("lap_ne_div_grad", {"mesh": nm})
+            if not np.array_equal(np.asarray(mesh.sites), sites_before):
+                viol("smooth_mutated_source_mesh", {"iterations": it, "max_shift": float(np.abs(np.asarray(mesh.sites) - sites_before).max())})
+                break
+            if np.shares_memory(np.asarray(sm.sites), np.asarray(mesh.sites)):
+                viol("smoothed_mesh_aliases_source_sites", {"iterations": it})
 
     kind = spec["mesh"]["kind"] + ("/" + spec["mesh"].get("shape", "") if spec["mesh"].get("shape") else "")
     if spec["mesh"]["kind"] == "explicit":
